@@ -135,7 +135,21 @@ def c20_escape(ctx):
     return _mux(utf8, alphabet, tokens, duration, _hypothesis_target(c20.durations(), c20.body_hms, ctx))
 
 
+def _generic(module_name, strategy_name, body_name="body"):
+    def make(ctx):
+        import importlib
+        mod = importlib.import_module("pbt.props." + module_name)
+        return _hypothesis_target(getattr(mod, strategy_name)(), getattr(mod, body_name), ctx)
+    return make
+
+
 TARGETS = {
+    "c03_moves": ("C03", _generic("c03", "cases")),
+    "c08_clip": ("C08", _generic("c08", "cases")),
+    "c09_reduce": ("C09", _generic("c09", "cases")),
+    "c13_histories": ("C13", _generic("c13", "histories")),
+    "c14_layouts": ("C14", _generic("c14", "layouts")),
+    "c19_ports": ("C19", _generic("c19", "port_lists")),
     "c05_framing": ("C05", c05_framing),
     "c11_vbscale": ("C11", c11_vbscale),
     "c12_lengths": ("C12", c12_lengths),
